@@ -41,6 +41,34 @@ fn gen_aggs(rng: &mut Rng) -> Value {
   a
 }
 
+/// the canonical aggregation JSON with the `score` of every top_hits hit removed
+fn strip_top_hits_scores(v: &Value) -> Value {
+  match v {
+    Value::Object(m) => {
+      let is_top = m.get("type") == Some(&json!("top_hits"));
+      Value::Object(
+        m.iter()
+          .map(|(k, x)| {
+            if is_top && k == "hits" {
+              (k.clone(), Value::Array(x.as_array().cloned().unwrap_or_default().iter().map(|h| {
+                let mut h = h.clone();
+                if let Some(o) = h.as_object_mut() {
+                  o.remove("score");
+                }
+                h
+              }).collect()))
+            } else {
+              (k.clone(), strip_top_hits_scores(x))
+            }
+          })
+          .collect(),
+      )
+    }
+    Value::Array(a) => Value::Array(a.iter().map(strip_top_hits_scores).collect()),
+    other => other.clone(),
+  }
+}
+
 impl Prop for C13 {
   fn id(&self) -> &'static str {
     "C13"
@@ -165,7 +193,10 @@ impl Prop for C13 {
       let got = canon_aggs(&v);
       if got != want {
         let obs = json!({"variant": name, "limit": r["limit"], "sort": r["sort"], "cursor": r["cursor"], "base": want, "variant_result": got});
-        if name == "cursor-page" {
+        let field_sort = !plan_json(&r["sort"]).as_array().map(|a| a.iter().any(|p| p["f"] == "score")).unwrap_or(false);
+        if name != "cursor-page" && field_sort && !has_hook(&r["query"]) && !r["explain"].as_bool().unwrap_or(false) && strip_top_hits_scores(&got) == strip_top_hits_scores(&want) {
+          s.fail("aggs.top-hits-score-under-field-sort", "a top_hits aggregation reports score 0 for its hits when the request sort does not use _score (scores are not computed then), the real score otherwise", case, obs);
+        } else if name == "cursor-page" {
           s.fail("aggs.cursor-page", "on page >= 2 of a cursor walk aggregations only count the documents after the cursor (the cursor test sits in the accept step that feeds the collectors)", case, obs);
         } else {
           s.fail(&format!("aggs.variant.{name}"), "aggregations/suggestions differ from the base request's", case, obs);
@@ -178,7 +209,10 @@ impl Prop for C13 {
         Ok(x) => x,
         Err(_) => continue,
       };
-      let scores: Vec<(String, f32)> = ranking.hits.iter().map(|h| (h.doc_id.clone(), h.score)).collect();
+      let scores = match raw_scores(&built.reader, &rk, &ranking) {
+        Ok(x) => x,
+        Err(_) => continue,
+      };
       let cur = cursor.as_ref().map(|(id, sc, n)| (id.as_str(), *sc, *n));
       let mut mr = model_req(&r, &lay, model_hits(&lay, &scores, None), cur, false);
       // hits themselves are C18–C20's business; here only what was collected
